@@ -232,6 +232,60 @@ def coq_build(clean=False):
             'failed_files': failed, 'errors': errors[:10], 'wall_s': round(time.time() - t0, 1)}
 
 
+def dep_closure(prop_id):
+    """the .v files (without extension, relative to coq/) that Props/<id>.v transitively depends on, from coqdep's output"""
+    deps = {}
+    try:
+        for line in open(os.path.join(VERIF, 'coq', '.Makefile.d')):
+            if ':' not in line:
+                continue
+            lhs, rhs = line.split(':', 1)
+            tg = [t[:-3] for t in lhs.split() if t.endswith('.vo')]
+            if not tg:
+                continue
+            deps.setdefault(tg[0], set()).update(t[:-3] for t in rhs.split() if t.endswith('.vo'))
+    except OSError:
+        return None
+    seen, todo = set(), ['Props/' + prop_id]
+    while todo:
+        x = todo.pop()
+        if x in seen:
+            continue
+        seen.add(x)
+        todo.extend(deps.get(x, ()))
+    return seen
+
+
+def build_broken_for(prop_id, build):
+    """Which build problems concern this property: the driver (needed by every correspondence), a failed file the property's
+    theorems depend on, a failed generator whose files they depend on.  A broken proof of ANOTHER property is that property's alarm."""
+    if build is None:
+        return []
+    why = []
+    clo = dep_closure(prop_id)
+    if build['rc'] not in (0,):
+        rel = [f for f in build['failed_files'] if clo is None or f in clo]
+        if rel:
+            why.append('files that do not compile: ' + ' '.join(rel))
+        if build['rc'] == 3 or 'extraction failed' in build['out'] or 'driver build failed' in build['out']:
+            why.append('extraction / driver build failed')
+        elif not build['failed_files']:
+            why.append('build failed (rc=%s)' % build['rc'])
+    if build['gen_rc'] != 0:
+        try:
+            failed = json.load(open(os.path.join(VERIF, 'coq', 'Generated', '.failed.json')))
+        except (OSError, ValueError):
+            failed = None
+        if not failed:
+            why.append('a generator failed (no detail available)')
+        else:
+            for m, d in failed.items():
+                files = ['Generated/' + f[:-2] for f in d.get('poisoned', []) + d.get('rewritten', [])]
+                if d.get('first_run') or clo is None or any(f in clo for f in files):
+                    why.append('generator %s failed: %s' % (m, d.get('error', '')[:300]))
+    return why
+
+
 def theorems_of(prop_id):
     path = os.path.join(VERIF, 'coq', 'Props', prop_id + '.v')
     if not os.path.exists(path):
@@ -418,13 +472,14 @@ def finish(ctx, level, build, aud, trusted_base, assumptions, checker_cmd, rule,
     proof_broken = []
     if aud is not None:
         proof_broken = list(aud['unchecked']) + list(aud['with_axioms']) + list(aud['forbidden'])
-    tie_broken = bool(ctx.disagreements) or (build is not None and (build['gen_rc'] != 0 or build['rc'] not in (0,)))
+    build_why = build_broken_for(ctx.id, build)
+    tie_broken = bool(ctx.disagreements) or bool(build_why)
     if (proof_broken or tie_broken) and not unlisted:
         obj = {'property': ctx.id, 'seed': ctx.seed, 'tier': ctx.tier,
                'theorems_no_longer_checked': proof_broken,
                'correspondences_broken': ctx.disagreements[:20],
                'n_disagreements': len(ctx.disagreements),
-               'build': {k: build[k] for k in ('gen_rc', 'rc', 'failed_files', 'errors')} if build else None,
+               'build': dict({k: build[k] for k in ('gen_rc', 'rc', 'failed_files', 'errors')}, concerns_this_property=build_why) if build else None,
                'note': 'no concrete input was found on which the property itself fails on the implementation'}
         if build and build['gen_rc'] != 0:
             obj['build']['gen_out'] = build['gen_out']
